@@ -511,8 +511,13 @@ func (h *DijkstraBlockHeader) UnmarshalCBOR(cborData []byte) error {
 	if _, err := cbor.Decode(top[1], &signature); err != nil {
 		return err
 	}
-	h.Body = body
-	h.Signature = signature
+	// Overwrite the whole embedded header (as the fast path does) so that no
+	// state cached by an earlier decode into this receiver - the header hash -
+	// survives: the hash must be that of the bytes stored below.
+	h.BabbageBlockHeader = babbage.BabbageBlockHeader{
+		Body:      body,
+		Signature: signature,
+	}
 	h.LeiosHeaderExtension = bodyElems[babbageHeaderBodyFieldCount:]
 	h.SetCbor(cborData)
 	return nil
